@@ -6,4 +6,5 @@ INVARIANT ResultsStable
 INVARIANT SourceIntact
 INVARIANT YieldsLast
 PROPERTY MutateIsLocal
+INVARIANT Emitted
 CHECK_DEADLOCK FALSE
